@@ -114,7 +114,12 @@ Record fres := {
 }.
 Definition facets := list (bytes * fres).      (* search.FacetResults: name -> result *)
 
-(* TermFacets.Add (one facet): termLookup hit -> add the count, else append *)
+(* TermFacets.Add (one facet): termLookup hit -> add the count, else append.
+   TermFacets keeps a slice (termFacets) and a map (termLookup); they hold the same terms until
+   TrimToTopN / Fixup cut the slice (the map keeps the cut-off terms, and a count later merged into
+   such a term is dropped).  The model has the slice only: it is exact as long as no list was
+   trimmed, i.e. for facet sizes that cover all buckets — the case the property is about; the
+   correspondence check compares only Total and Missing of facets whose size does not cover. *)
 Fixpoint terms_add (l : list (bytes * Z)) (t : bytes) (c : Z) : list (bytes * Z) :=
   match l with
   | [] => [(t, c)]
